@@ -1,4 +1,195 @@
-use crate::{ctx::CaseOut, Params};
-pub fn case(_idx: u64, _seed: u64, _p: &Params, o: &mut CaseOut) {
-    o.skipped = true;
+//! C15 — seeded random generators are deterministic and always structurally
+//! valid.
+
+use crate::ctx::CaseOut;
+use crate::events::check_tiling;
+use crate::model::Model;
+use crate::props::c11::{hook_begin, hook_end};
+use crate::rng::{Fp, Rng};
+use crate::Params;
+use graaf::gen::prng::Xoshiro256StarStar;
+use graaf::*;
+
+pub const TYPES: [&str; 4] = ["AdjacencyList", "AdjacencyMap", "AdjacencyMatrix", "EdgeList"];
+
+pub fn model_of<D: Vertices + Arcs>(d: &D) -> Model {
+    let mut m = Model::default();
+    for v in d.vertices() {
+        m.verts.insert(v);
+    }
+    for (u, v) in d.arcs() {
+        m.arcs.insert((u, v), 1);
+    }
+    m
+}
+
+pub fn arcs_hash<D: Arcs + Order>(d: &D) -> u64 {
+    let mut fp = Fp::new();
+    fp.us(d.order());
+    for (u, v) in d.arcs() {
+        fp.us(u).us(v);
+    }
+    fp.0
+}
+
+pub fn check_tournament<D: Vertices + Arcs + Order + Size>(d: &D, n: usize, o: &mut CaseOut, name: &str) {
+    let m = model_of(d);
+    let listed: Vec<(usize, usize)> = d.arcs().collect();
+    o.check(d.order() == n && m.verts.iter().copied().eq(0..n), &format!("{name}::random_tournament:vertex-set"), || format!("order {} vertices {:?}", d.order(), m.vert_list()));
+    o.check(listed.len() == m.size(), &format!("{name}::random_tournament:duplicate-arc-listed"), || format!("{listed:?}"));
+    o.check(m.valid() && m.is_tournament() && m.size() == n * (n - 1) / 2 && d.size() == m.size(), &format!("{name}::random_tournament:not-a-tournament"), || m.describe());
+}
+
+pub fn check_erdos<D: Vertices + Arcs + Order + Size>(d: &D, n: usize, pr: f64, o: &mut CaseOut, name: &str) {
+    let m = model_of(d);
+    let listed: Vec<(usize, usize)> = d.arcs().collect();
+    o.check(d.order() == n && m.verts.iter().copied().eq(0..n), &format!("{name}::erdos_renyi:vertex-set"), || format!("order {} vertices {:?}", d.order(), m.vert_list()));
+    o.check(listed.len() == m.size() && d.size() == m.size(), &format!("{name}::erdos_renyi:duplicate-arc-listed"), || format!("{listed:?}"));
+    o.check(listed.iter().all(|&(u, v)| u != v && u < n && v < n), &format!("{name}::erdos_renyi:self-loop-or-outside-endpoint"), || m.describe());
+    if pr == 0.0 {
+        o.check(m.size() == 0, &format!("{name}::erdos_renyi:arcs-at-p=0"), || m.describe());
+    }
+    if pr == 1.0 {
+        o.check(m.size() == n * (n - 1), &format!("{name}::erdos_renyi:missing-arcs-at-p=1"), || m.describe());
+    }
+}
+
+fn check_tree<D: Vertices + Arcs + Order>(d: &D, n: usize, o: &mut CaseOut, name: &str) {
+    let m = model_of(d);
+    o.check(d.order() == n && m.verts.iter().copied().eq(0..n), &format!("{name}::random_recursive_tree:vertex-set"), || format!("order {}", d.order()));
+    let ok = m.out(0).is_empty() && (1..n).all(|u| {
+        let out = m.out(u);
+        out.len() == 1 && out[0] < u
+    }) && d.arcs().count() == n - 1;
+    o.check(ok, &format!("{name}::random_recursive_tree:shape"), || m.describe());
+}
+
+fn one_type<D>(o: &mut CaseOut, name: &str, n: usize, seed: u64, pr: f64, kind: usize)
+where
+    D: RandomTournament + RandomRecursiveTree + ErdosRenyi + Vertices + Arcs + Order + Size + Eq,
+{
+    match kind {
+        0 => {
+            let d = D::random_tournament(n, seed);
+            check_tournament(&d, n, o, name);
+            o.check(d == D::random_tournament(n, seed), &format!("{name}::random_tournament:not-repeatable"), || format!("order {n} seed {seed}"));
+            o.digest.push((Fp::new().s(name).s("rt").us(n).u(seed).0, arcs_hash(&d), name == "AdjacencyMap"));
+        }
+        1 => {
+            let d = D::random_recursive_tree(n, seed);
+            check_tree(&d, n, o, name);
+            o.check(d == D::random_recursive_tree(n, seed), &format!("{name}::random_recursive_tree:not-repeatable"), || format!("order {n} seed {seed}"));
+            o.digest.push((Fp::new().s(name).s("rrt").us(n).u(seed).0, arcs_hash(&d), false));
+        }
+        _ => {
+            let d = D::erdos_renyi(n, pr, seed);
+            check_erdos(&d, n, pr, o, name);
+            o.check(d == D::erdos_renyi(n, pr, seed), &format!("{name}::erdos_renyi:not-repeatable"), || format!("order {n} p {pr} seed {seed}"));
+            o.digest.push((Fp::new().s(name).s("er").us(n).u(seed).u(pr.to_bits()).0, arcs_hash(&d), name == "AdjacencyMap"));
+        }
+    }
+}
+
+pub fn case(idx: u64, seed: u64, p: &Params, o: &mut CaseOut) {
+    let mut r = Rng::for_case(15, seed, idx);
+    let max = p.usize("max_order", 129);
+    let part = r.below(20);
+    if part == 0 {
+        // next_f64 lies in [0, 1)
+        let (x, y) = (r.next(), r.next());
+        let s = *r.pick(&[0u64, 1, 1 << 63, u64::MAX, x, y]);
+        let mut g = Xoshiro256StarStar::new(s);
+        let draws = p.usize("draws", 20000);
+        let (mut lo, mut hi) = (1.0f64, 0.0f64);
+        let mut bad = None;
+        for _ in 0..draws {
+            let x = g.next_f64();
+            if !(0.0..1.0).contains(&x) {
+                bad = Some(x);
+            }
+            lo = lo.min(x);
+            hi = hi.max(x);
+        }
+        o.check(bad.is_none(), "next_f64-outside-[0,1)", || format!("seed {s}: {bad:?}"));
+        // two generators with the same seed agree
+        let a: Vec<u64> = Xoshiro256StarStar::new(s).take(8).collect();
+        let b: Vec<u64> = Xoshiro256StarStar::new(s).take(8).collect();
+        o.eq("xoshiro-not-repeatable", &a, &b);
+        o.fp = Fp::new().s("f64").u(s).0;
+        o.nontrivial = true;
+        o.bump("next_f64");
+        if o.want_desc {
+            o.desc = format!("{draws} draws of next_f64 from seed {s}: min {lo} max {hi}");
+        }
+        return;
+    }
+    let n = match r.below(10) {
+        0 => 1,
+        1 => 2,
+        2..=5 => r.range(1, max.min(17)),
+        6..=7 => r.range(1, max.min(64)),
+        8 => *r.pick(&[31usize, 32, 33, 63, 64, 65]).min(&max),
+        _ => *r.pick(&[100usize, 129]).min(&max),
+    };
+    let (x, y, z) = (r.next(), r.next(), r.next());
+    let gseed = *r.pick(&[0u64, 1, 1 << 63, u64::MAX, x, y, z]);
+    let eps = f64::EPSILON;
+    let pr = *r.pick(&[0.0, eps, 0.25, 0.5, 0.5 + eps, 0.75, 1.0 - eps, 1.0]);
+    let kind = r.below(3);
+    let ty = r.below(5);
+    let t = std::thread::available_parallelism().map_or(1, |x| x.get());
+    match ty {
+        0 => one_type::<AdjacencyList>(o, TYPES[0], n, gseed, pr, kind),
+        2 => one_type::<AdjacencyMatrix>(o, TYPES[2], n, gseed, pr, kind),
+        3 => one_type::<EdgeList>(o, TYPES[3], n, gseed, pr, kind),
+        _ => {
+            // AdjacencyMap: threaded; hooks and delays on
+            hook_begin(p, idx);
+            one_type::<AdjacencyMap>(o, TYPES[1], n, gseed, pr, kind);
+            let ev = hook_end();
+            let site = if kind == 0 { graaf::verif::AM_RANDOM_TOURNAMENT } else { graaf::verif::AM_ERDOS_RENYI };
+            if kind != 1 && n > 1 {
+                // two calls were made: the log holds two tilings
+                let begins: Vec<_> = ev.iter().filter(|e| e.0 == site).copied().collect();
+                // check the union as a multiset: every row range must occur exactly twice
+                let mut rng: Vec<(usize, usize)> = begins.iter().filter(|e| e.1 == graaf::verif::BEGIN).map(|e| (e.2, e.3)).collect();
+                rng.sort_unstable();
+                let once: Vec<(u64, u64, usize, usize)> = rng.chunks(2).flat_map(|c| [(site, graaf::verif::BEGIN, c[0].0, c[0].1), (site, graaf::verif::END, c[0].0, c[0].1)]).collect();
+                let paired = rng.len() % 2 == 0 && rng.chunks(2).all(|c| c[0] == c[1]);
+                o.check(paired, "tiling:two-calls-use-different-partitions", || format!("{rng:?}"));
+                if paired {
+                    if let Some(tl) = check_tiling(&once, site, n, false, o, if kind == 0 { "AdjacencyMap::random_tournament" } else { "AdjacencyMap::erdos_renyi" }) {
+                        o.bumpn("workers", tl.workers);
+                        let mut f = Fp::new();
+                        for e in ev.iter().filter(|e| e.0 == site) {
+                            f.u(e.1).us(e.2);
+                        }
+                        o.sigs.push((site, f.0));
+                    }
+                }
+            }
+        }
+    }
+    // inadmissible p must panic
+    if kind == 2 && r.chance(0.3) {
+        let bad = *r.pick(&[-eps, 1.0 + eps, f64::NAN, -1.0, 2.0, f64::INFINITY, f64::NEG_INFINITY]);
+        match ty {
+            0 => o.must_panic("AdjacencyList::erdos_renyi:no-panic-for-p-outside-[0,1]", || format!("p = {bad}"), || AdjacencyList::erdos_renyi(n.max(2), bad, gseed)),
+            2 => o.must_panic("AdjacencyMatrix::erdos_renyi:no-panic-for-p-outside-[0,1]", || format!("p = {bad}"), || AdjacencyMatrix::erdos_renyi(n.max(2), bad, gseed)),
+            3 => o.must_panic("EdgeList::erdos_renyi:no-panic-for-p-outside-[0,1]", || format!("p = {bad}"), || EdgeList::erdos_renyi(n.max(2), bad, gseed)),
+            _ => o.must_panic("AdjacencyMap::erdos_renyi:no-panic-for-p-outside-[0,1]", || format!("p = {bad}"), || AdjacencyMap::erdos_renyi(n.max(2), bad, gseed)),
+        };
+        o.bump("inadmissible_p");
+    }
+    let tyname = if ty >= 4 { TYPES[1] } else { TYPES[ty] };
+    let kn = ["random_tournament", "random_recursive_tree", "erdos_renyi"][kind];
+    o.fp = Fp::new().s(tyname).s(kn).us(n).u(gseed).u(pr.to_bits()).0;
+    o.nontrivial = n > t;
+    o.bump(tyname);
+    o.bump(kn);
+    o.bumpn("order/16", n / 16);
+    o.bumpn("threads_available", t);
+    if o.want_desc {
+        o.desc = format!("{tyname}::{kn}(order {n}, p {pr}, seed {gseed}) (available_parallelism {t})");
+    }
 }
